@@ -5,7 +5,8 @@ Line protocol of engine `filter` (property C02).
   filter subdir <base> <test> <T|F trailing> <T|F wildcards> <tables>
   filter test <filters> <info> <rec> <T|F isRedirect> <tables>
   filter build <22 option tokens>
-  filter web <filters> <T|F strong> <T|F robots> <rec> <info> <robots outcome> <resps> <tables>
+  filter checkin <try count> <T|F url_result given> <T|F increment_try_count>     -> try count after check_in
+  filter web <filters> <T|F strong> <T|F robots> <T|F item.is_virtual truthy> <rec> <info> <robots outcome> <resps> <tables>
       (resps: `;`-separated `A` | `F` | `D:<info>@<robots outcome for that target>`)
   filter ftp <filters> <rec> <info> <shape> <perm probe> <tables>
   filter httpchild <item inline level None|n> <item level> <T|F link is inline>    -> `<level> <inline level>` of the child record
@@ -211,12 +212,16 @@ def handle : List String → String
     match decOptions? rest with
     | some a => encFilters (buildFilters a)
     | none => "bad-arg"
-  | ["web", fs, strong, robots, r, u, rob, resps, tb] =>
-    match decFilters? fs, decBool? strong, decBool? robots, decRec? r, decInfo? u, decRobots? rob,
+  | ["web", fs, strong, robots, virt, r, u, rob, resps, tb] =>
+    match decFilters? fs, decBool? strong, decBool? robots, decBool? virt, decRec? r, decInfo? u, decRobots? rob,
           decResps? resps, decTables? tb with
-    | some fs, some strong, some robots, some r, some u, some rob, some resps, some tb =>
-      both tb (fun o => encEvs (webProcess o ⟨fs, strong, robots⟩ r u rob resps))
-    | _, _, _, _, _, _, _, _ => "bad-arg"
+    | some fs, some strong, some robots, some virt, some r, some u, some rob, some resps, some tb =>
+      both tb (fun o => encEvs (webProcess o ⟨fs, strong, robots, virt⟩ r u rob resps))
+    | _, _, _, _, _, _, _, _, _ => "bad-arg"
+  | ["checkin", tc, hr, inc] =>
+    match tc.toNat?, decBool? hr, decBool? inc with
+    | some tc, some hr, some inc => toString (checkInTryCount tc hr inc)
+    | _, _, _ => "bad-arg"
   | ["ftp", fs, r, u, shape, perm, tb] =>
     match decFilters? fs, decRec? r, decInfo? u, decShape? shape, decOptInfo? perm, decTables? tb with
     | some fs, some r, some u, some shape, some perm, some tb =>
